@@ -54,6 +54,8 @@ type WorkerOut struct {
 	WallS       float64           `json:"wall_s"`
 	SimMs       int64             `json:"sim_ms"`
 	CrossObs    map[string]int    `json:"cross_obs"`
+	IdxHashes   map[string]string `json:"idx_hashes,omitempty"`
+	Rule        string            `json:"rule"`
 }
 
 func envInt(k string, d int) int {
@@ -113,7 +115,11 @@ func TestWorker(t *testing.T) {
 	sweepStride := envInt("VERIF_SWEEP_STRIDE", 1)
 	sweepMax := envInt("VERIF_SWEEP_MAX", 400)
 	deadline := time.Now().Add(time.Duration(envInt("VERIF_BUDGET_S", 3600)) * time.Second)
-	out := &WorkerOut{Prop: prop, Stats: map[string]int64{}, CrossObs: map[string]int{}}
+	out := &WorkerOut{Prop: prop, Stats: map[string]int64{}, CrossObs: map[string]int{}, Rule: pd.Rule}
+	idxHashes := os.Getenv("VERIF_IDX_HASHES") != ""
+	if idxHashes {
+		out.IdxHashes = map[string]string{}
+	}
 	t0 := time.Now()
 	seenV := map[string]bool{}
 	one := func(sc *Scenario, idx int) {
@@ -128,6 +134,9 @@ func TestWorker(t *testing.T) {
 			return
 		}
 		accumulate(out, sc, res, tr)
+		if idxHashes {
+			out.IdxHashes[fmt.Sprintf("%d/%d", idx, sc.SweepStep)] = fmt.Sprintf("%016x", res.Hash)
+		}
 		nt := defaultNonTrivial
 		if pd.NonTrivial != nil {
 			nt = pd.NonTrivial
@@ -382,4 +391,41 @@ func TestReplay(t *testing.T) {
 	} else {
 		fmt.Printf("REPLAY-RESULT not-reproduced violations=%d\n", len(own))
 	}
+}
+
+// TestDiff runs one generated scenario twice and prints the first diverging event.
+func TestDiff(t *testing.T) {
+	prop := os.Getenv("VERIF_PROP")
+	if prop == "" || os.Getenv("VERIF_DIFF") == "" {
+		t.Skip()
+	}
+	pd := Props[prop]
+	idx := envInt("VERIF_DIFF", 0)
+	seed := propSeed(uint64(envInt("VERIF_SEED", 1)), prop, idx)
+	for try := 0; try < 20; try++ {
+		a := RunScenario(t, pd.Gen(seed, idx, ""), nil)
+		b := RunScenario(t, pd.Gen(seed, idx, ""), nil)
+		if a.Hash == b.Hash {
+			continue
+		}
+		n := min(len(a.Log.Events), len(b.Log.Events))
+		for i := 0; i < n; i++ {
+			x, y := a.Log.Events[i].String(), b.Log.Events[i].String()
+			if x != y {
+				for j := max(0, i-12); j < i; j++ {
+					fmt.Println("  ", a.Log.Events[j].String())
+				}
+				fmt.Println("A:", x)
+				fmt.Println("B:", y)
+				for j := i + 1; j < min(n, i+6); j++ {
+					fmt.Println("A+", a.Log.Events[j].String())
+					fmt.Println("B+", b.Log.Events[j].String())
+				}
+				return
+			}
+		}
+		fmt.Println("lengths differ", len(a.Log.Events), len(b.Log.Events))
+		return
+	}
+	fmt.Println("no divergence in 20 tries")
 }
